@@ -82,6 +82,13 @@ CHECKS.update({
   ref="DESIGN.md section 5 C20"),
 })
 
+CHECKS.update({
+ "C14": dict(technique="Coq proof by induction over operation lists of a state-machine model of (instance x file) under fit / sample / auto_checkpoint / resume_from_file: invariant proved under an explicit per-step guard, refuted without it (vm_compute witnesses); every script is run on a real Aspire and the file read back after every operation",
+  text="Theorems: C14_invariant_partial - for every history whose steps satisfy the guard (a fit touches the file only while it holds no checkpoint; a checkpointing sampler rewrites or matches the configuration and the file's flow is or becomes the one its particles are weighted under; a non-checkpointing sampler does not rewrite the configuration of a file holding a checkpoint) the stored flow is the one the stored checkpoint was weighted under and the configuration names its sampler; C14_invariant_refuted - four minimal unguarded histories break it. The model is compared with the real file after EVERY operation of exhaustive (length<=3/4) and random (length<=8) scripts; the refuting histories are reproduced on the implementation and listed as known findings.",
+  note="Trusted: Coq kernel (no axioms); the hand model Model/FileSM.v is tied to aspire.py by the per-operation file comparison (flow tag, sampler_type, checkpoint sampler, and the flow the checkpoint's stored log_q matches); FakeFlow registered as external backend; stub kernels. The unguarded property is FALSE of the code: 7 known findings.",
+  ref="DESIGN.md section 5 C14"),
+})
+
 PENDING_REASON = "check not built yet in this round (planned: DESIGN.md section 5); no claim is made"
 
 
